@@ -9,7 +9,7 @@ Not decided: round-trip equality of programs."""
 import os
 import re
 import grammar
-from core import enum_matches, select_arms, V, walk, calls
+from core import enum_matches, select_arms, V, walk, calls, expr_vars
 from kit import need_body, string_literals, thir_all, short
 
 RENDER = "<chalk_solve::rust_ir::%s as chalk_solve::display::render_trait::RenderAsRust>::fmt"
@@ -222,3 +222,26 @@ def run(ck, facts, tier):
                          "of the datum; an adaptor that drops elements needs an audit entry with its reason"
                          % (len(sites), k2[1], AUDIT.get(k2, (0, ""))[0]))
     ck.floor(R, "audited-adaptor-sites", sum(len(v) for v in seen.values()), 3)
+
+    R = "C22.NAME-INJECTIVE"
+    ck.rule(R, "K1/K3: the writer gives different ids different names: IdAliasStore::alias_for_id_name looks the alias up by *id*, draws a "
+               "new alias from a counter kept per *name* and advances that counter, and prints `name` for alias 0 and `name_<alias>` "
+               "otherwise (so two items called alike are told apart, and the same item always gets the same name)")
+    ak = "chalk_solve::display::state::IdAliasStore::alias_for_id_name"
+    ab = need_body(ck, facts, R, ak)
+    if ab:
+        th = facts.thir(ak)
+        by_id = [c for c in calls(th, "IndexMap::entry") if "id" in expr_vars(c["args"][1] if len(c["args"]) > 1 else c)]
+        per_name = [c for c in calls(th, "BTreeMap::entry") if "name" in expr_vars(c)]
+        bump = [n for n in walk(th) if n.get("k") == "assignop" and n.get("op") in ("AddAssign", "Add")]
+        cond = [n for n in walk(th) if n.get("k") == "if" and any(x.get("k") == "bin" and x.get("op") in ("Eq", "Ne") and "alias" in expr_vars(x)
+                                                                 for x in walk(n["cond"]))]
+        fmt_ok = any("_" in lit and lit.count("{}") == 2 for lit in string_literals(th))
+        checks = {"alias-keyed-by-id": bool(by_id), "counter-per-name": bool(per_name), "counter-advanced": bool(bump),
+                  "suffix-iff-alias-nonzero": bool(cond) and fmt_ok}
+        for name, okv in checks.items():
+            if okv:
+                ck.ok(R, "alias_for_id_name:%s" % name)
+            else:
+                ck.violation(R, "alias_for_id_name:%s" % name, ab.where(), "name disambiguation lost this ingredient: two different items could be "
+                             "printed under one name (or one item under two)")
